@@ -256,6 +256,14 @@ pub fn check_corpus(case: &super::c02::CorpusCase, st: &mut Stats) -> Check {
     check_bytes_layout(buf.bytes(), st)?;
     let cache = parse_cache(&buf)?;
     guarded(|| cache.0.test()).map_err(|p| Fail::new("self-test", format!("ProguardCache::test() rejected a freshly written file: {p}")))?;
+    // real-world file converted by the independent strict recogniser: decoded records must equal the model's
+    let ac = CorpusAstCase { path: case.path.clone(), crlf: case.crlf, pick: 0, max_classes: 0 };
+    if let Some((_, ast)) = load_corpus_ast(&ac)? {
+        st.class("corpus file: decoded records compared with the model derived by the strict recogniser");
+        let model = Model::new(&ast);
+        let l = layout::decode(buf.bytes()).map_err(|e| Fail::new("layout-decode", e))?;
+        check_against_model(&l, &model).map_err(|(sig, msg)| Fail::new(&sig, msg))?;
+    }
     Ok(())
 }
 
